@@ -83,7 +83,8 @@ def run(tier):
                     for indent in ((0, 2) if thorough or label in ("none", "one", "zero", "utc", "v4", "md5", "empty") else (0,)):
                         url = "jsonfile://" + os.path.join(tmp, "o.json") + "?descriptors=" + ("true" if descriptors else "false") + (f"&indent={indent}" if indent else "")
                         c = {"T": T, "islist": islist, "label": label, "isnone": bool(isnone), "descriptors": descriptors, "indent": indent, "raised": False, "exc": "none", "identical": False,
-                             "all_docs_parse": False, "one_doc_per_line": False, "doc_kinds": [], "record_keys": [], "shape": "?", "scalars_equal": False}
+                             "all_docs_parse": False, "one_doc_per_line": False, "doc_kinds": [], "record_keys": [], "shape": "?", "scalars_equal": False,
+                             "plain_checked": False, "plain_type": "?", "plain_shape": "?"}
                         try:
                             with RecordWriter(url) as w:
                                 w.write(rec)
@@ -124,6 +125,12 @@ def run(tier):
                                         else:
                                             ok &= bool(got == jv)
                                     c["scalars_equal"] = bool(ok)
+                                    if len(back) == 1 and "f" in jd:
+                                        jv = jd["f"]
+                                        c["plain_checked"] = True
+                                        c["plain_shape"] = ("bool" if isinstance(jv, bool) else "int" if isinstance(jv, int) else "float" if isinstance(jv, float)
+                                                            else "string" if isinstance(jv, str) else "null" if jv is None else "array" if isinstance(jv, list) else "object")
+                                        c["plain_type"] = dict((n, t) for t, n in back[0]._desc.get_field_tuples()).get("f", "?")
                             except Exception as e:
                                 c["raised"], c["exc"] = True, "read:" + type(e).__name__ + ":" + str(e)[:60]
                         cases.append(c)
@@ -135,6 +142,7 @@ def run(tier):
     def seq_case(recs, descriptors, label, T):
         url = "jsonfile://" + os.path.join(tmp, "o.json") + "?descriptors=" + ("true" if descriptors else "false")
         c = {"T": T, "islist": False, "label": label, "isnone": False, "descriptors": descriptors, "indent": 0, "raised": False, "exc": "none", "identical": False,
+             "plain_checked": False, "plain_type": "?", "plain_shape": "?",
              "all_docs_parse": True, "one_doc_per_line": True, "doc_kinds": ["recorddescriptor", "record"] if descriptors else ["record"], "record_keys": ["f", "tail", "_source", "_classification", "_generated", "_version"] + (["_type", "_recorddescriptor"] if descriptors else []),
              "shape": "?", "scalars_equal": False, "sequence": True}
         try:
